@@ -186,4 +186,44 @@ def kindOf : String → Option Kind
   | "disposed-unregistered" => some .disposedUnregistered
   | _ => none
 
+/-! ### handles of pending (blocked) samples: `process_pending_write_samples` (writer_methods.rs)
+
+    One pass over all writers of the participant; for every writer with a pending sample the key members of the sample's
+    type are collected into a scratch list (`KeyHolderData::from_dynamic_data(&pending.dynamic_data, &mut member_list)`
+    PUSHES them), the key holder is built over that list and hashed.  As coded the scratch list is created per writer;
+    the seeded variant (seed_C11_c) shares one list across the pass, so later writers see the members of earlier ones. -/
+
+/-- `km s` = the key members `from_dynamic_data` pushes for the sample's type; `hashOver l s` = the handle computed from a
+    key holder built over the member list `l` and filled from `s` -/
+structure PendingModel (Sample M Handle : Type) where
+  km : Sample → List M
+  hashOver : List M → Sample → Handle
+
+variable {M : Type}
+
+/-- the handle the writer assigns on a direct (non-blocked) write: a fresh list -/
+def directHandle (p : PendingModel Sample M Handle) (s : Sample) : Handle := p.hashOver (p.km s) s
+
+/-- as coded: a fresh scratch list for every writer with a pending sample (`none` = nothing pending) -/
+def pendingHandles (p : PendingModel Sample M Handle) : List (Option Sample) → List (Option Handle)
+  | [] => []
+  | none :: ws => none :: pendingHandles p ws
+  | some s :: ws => some (p.hashOver ([] ++ p.km s) s) :: pendingHandles p ws
+
+/-- the seeded variant: ONE scratch list for the whole pass, never cleared -/
+def pendingHandlesShared (p : PendingModel Sample M Handle) : List (Option Sample) → List M → List (Option Handle)
+  | [], _ => []
+  | none :: ws, acc => none :: pendingHandlesShared p ws acc
+  | some s :: ws, acc => some (p.hashOver (acc ++ p.km s) s) :: pendingHandlesShared p ws (acc ++ p.km s)
+
+/-- executable instance: the key holder over a member list is filled BY MEMBER NAME from the sample of type `t` -/
+def valByName (t : List Member) (s : List Val) (n : String) : Val :=
+  match (t.zip s).find? (fun p => p.1.name == n) with
+  | some p => p.2
+  | none => .int 0
+
+def pendingModelOf : PendingModel (List Member × List Val) Member (List Nat) :=
+  { km := fun ts => keyHolder ts.1
+    hashOver := fun l ts => hashKeyVals l (l.map (fun m => valByName ts.1 ts.2 m.name)) }
+
 end DustVerif.HandleE2E
